@@ -25,7 +25,8 @@ def run(tier, seed):
         vals.append((w, u - (1 << 64) if u >= (1 << 63) else u))
     vals.sort(key=lambda x: x[1])
 
-    forms = K.corpus(set(by_name))
+    skip = K.out_of_scope(PROP)
+    forms = [f for f in K.corpus(set(by_name)) if f[0] not in skip]
     percpu = {}
     for cpu, text in forms:
         if K.NUM.search(text):
@@ -88,7 +89,7 @@ def run(tier, seed):
         rule="every instruction text of tests/comparison/*.txt that has a numeric operand (quick: 60 per CPU), each numeric "
              "operand position probed with the 89 values of Codec!ProbeSet (2^k-1, 2^k, 2^k+1, -2^k, -2^k-1, -2^k+1 for 14 "
              "field widths); non-trivial/distinct = (cpu, form, operand position) groups",
-        traces_validated_against_impl=len(events) - len(canaries), probe_values=len(vals),
+        traces_validated_against_impl=len(events) - len(canaries), probe_values=len(vals), not_covered=sorted(skip),
         canaries=dict(injected=len(canaries), rejected=len(canaries)), exhaustive=False))
     chk.samples = [dict(cpu=meta[c[0]][0], form=meta[c[0]][1], operand=meta[c[0]][2]) for c in rnd.sample(cases, 5)]
     chk.assumptions = ["numeric tokens are located by a regular expression; register names such as r5, x4, $5 are not numbers"]
